@@ -147,14 +147,22 @@ func c20Run(j vs.Job) *vs.JobResult {
 						if pane > 0 && (width+si)%7 == 0 {
 							prefix = "%output %1 "
 						}
-						viol := c20Case(&now, width, pane, nm.name, count, size, seq, dt, color, prefix)
-						r.Execs++
-						r.Nontrivial++
-						if viol != "" {
-							sig := "c20:" + firstWords(viol, 5)
-							r.Violate(sig, fmt.Sprintf("width=%d pane=%d name=%s(%d cols) count=%d size=%d steps=%s dt=%v color=%q prefix=%q: %s", width, pane, nm.family, runewidth.StringWidth(nm.name), count, size, seq.name, dt, color, prefix, viol), nil)
-							if len(r.Violations) >= 6 {
-								return r
+						// a fresh file, and a resumed one (the prefix-hash exchange: onSize(whole), onStep(matched),
+						// setPreSize(matched), onSize(rest), steps relative to the rest), matched part rotated
+						pres := []int64{-1, []int64{size / 2, size - 1, size, 1}[(ni+ci+si+width)%4]}
+						for pi, pre := range pres {
+							if pi == 1 && (pre > size || pre < 0) {
+								continue
+							}
+							viol := c20Case(&now, width, pane, nm.name, count, size, pre, seq, dt, color, prefix)
+							r.Execs++
+							r.Nontrivial++
+							if viol != "" {
+								sig := "c20:" + firstWords(viol, 5)
+								r.Violate(sig, fmt.Sprintf("width=%d pane=%d name=%s(%d cols) count=%d size=%d resumed-at=%d steps=%s dt=%v color=%q prefix=%q: %s", width, pane, nm.family, runewidth.StringWidth(nm.name), count, size, pre, seq.name, dt, color, prefix, viol), nil)
+								if len(r.Violations) >= 6 {
+									return r
+								}
 							}
 						}
 					}
@@ -168,7 +176,7 @@ func c20Run(j vs.Job) *vs.JobResult {
 }
 
 // c20Case drives one file through the real progress bar and checks every line it drew.
-func c20Case(now *time.Time, width int, pane int32, name string, count int, size int64, seq c20Steps, dt time.Duration, color, prefix string) (viol string) {
+func c20Case(now *time.Time, width int, pane int32, name string, count int, size int64, pre int64, seq c20Steps, dt time.Duration, color, prefix string) (viol string) {
 	sink := &strings.Builder{}
 	defer func() {
 		if e := recover(); e != nil {
@@ -179,7 +187,15 @@ func c20Case(now *time.Time, width int, pane int32, name string, count int, size
 	bar.onNum(int64(count))
 	bar.onName(name)
 	bar.onSize(size)
-	for _, st := range seq.steps(size) {
+	rest := size
+	if pre >= 0 {
+		*now = now.Add(dt + 250*time.Millisecond)
+		bar.onStep(pre)
+		bar.setPreSize(pre)
+		rest = size - pre
+		bar.onSize(rest)
+	}
+	for _, st := range seq.steps(rest) {
 		*now = now.Add(dt + 250*time.Millisecond) // beyond the 200 ms redraw throttle so that every step draws
 		bar.onStep(st)
 	}
@@ -221,7 +237,7 @@ func init() {
 	vs.Register(&vs.Check{
 		ID:    "C20",
 		Level: "exploration",
-		Rule: "every width 1..200 (quick) / 1..500 (thorough) x tmux pane width {0, w} x names of display width {0,1,19,20,21,29,30,31,39,40,41,49,50,51,70} in five families (ASCII, CJK, emoji, combining marks, control characters) x file counts {1,2,10,1000} x step sequences {monotone, repeats, regression, beyond the size, negative, zero after n, huge}, " +
+		Rule: "every width 1..200 (quick) / 1..500 (thorough) x tmux pane width {0, w} x names of display width {0,1,19,20,21,29,30,31,39,40,41,49,50,51,70} in five families (ASCII, CJK, emoji, combining marks, control characters) x file counts {1,2,10,1000} x step sequences {monotone, repeats, regression, beyond the size, negative, zero after n, huge} x {fresh file, file resumed after a matched prefix of size/2, size-1, size or 1 bytes}, " +
 			"with sizes {0,1,1023,1024,2^31,2^62}, time between steps {0,1 ms,1 s,10^6 s}, colour pair and tmux prefix rotated through the other dimensions; every line drawn is measured with the library the code uses",
 		Assumptions: []string{"display width is measured with go-runewidth after removing the CSI sequences and the tmux octal encoding the bar itself emits; control characters count as width 0 as that library does",
 			"sizes, time deltas, colour and tmux prefix are rotated (a covering arrangement), not multiplied into the product"},
